@@ -273,7 +273,23 @@ type chainW struct {
 	*test.Chain
 	nm *nmW
 	bm *bmW
+	sm *smW
 }
+
+// smW: the fixture's service manager does not implement SendDoubleSignReport
+// (its embedded interface is nil); the engine calls it when a simulated
+// validator equivocates.
+type smW struct {
+	module.ServiceManager
+	reports int
+}
+
+func (s *smW) SendDoubleSignReport(result []byte, vh []byte, data []module.DoubleSignData) error {
+	s.reports++
+	return nil
+}
+
+func (c *chainW) ServiceManager() module.ServiceManager { return c.sm }
 
 func (c *chainW) NetworkManager() module.NetworkManager { return c.nm }
 func (c *chainW) BlockManager() module.BlockManager     { return c.bm }
